@@ -389,3 +389,36 @@ def conv_live(ev, indesc=None, cfg=None):
     if e == "Recv":
         m["exc"] = ev.get("exc", "")
     return m
+
+
+def replay_case(ctx, doc):
+    """--replay for the sequential session checks: run the recorded commands again and judge them."""
+    case = doc["case"]
+    if "commands" not in case:
+        raise core.Infra("this replay file has no command list")
+    ex = Exec(ctx.pid)
+    ex.cfg = case["cfg"]
+    ex.flags = {}
+    if not case["cfg"].get("enforce", True):
+        ex.flags["enforce"] = False
+    ex.cmds = list(case["commands"])
+    # inbound descriptions are rebuilt from the wire bytes
+    import fixmsg as FM
+    for c in ex.cmds:
+        if c.startswith("recv "):
+            wire = bytes.fromhex(c.split()[1])
+            d = FM.parse(wire)
+            ck = sum(wire[:wire.rfind(b"\x0110=") + 1]) % 256
+            valid = d.get("10") == "%03d" % ck
+            snd = FM.epoch(d["52"]) if "52" in d else T0
+            ex.ins.append({"type": d.get("35", ""), "seq": int(d.get("34", 0)), "possdup": d.get("43") == "Y",
+                           "has_orig": "122" in d, "orig": (FM.epoch(d["122"]) - T0) if "122" in d else 0, "sending": snd - T0,
+                           "sci": d.get("49", ""), "tci": d.get("56", ""), "id": idnum(d.get("11", "")), "valid": valid,
+                           "why": "" if valid else "checksum", "hbint": int(d.get("108", 0)), "reset": d.get("141") == "Y",
+                           "testreqid": d.get("112", ""), "begin": int(d.get("7", 0)), "end": int(d.get("16", 0)),
+                           "newseq": int(d.get("36", 0)), "gapfill": d.get("123") == "Y"})
+    ex.abstract = [("replay", doc.get("sig"))]
+    traces, aborts = run_execs(ctx, [ex], "replay", variant="asan", nproc=1)
+    judge(ctx, [ex], traces, aborts, "replay", chunks=1)
+    for e in traces[0] or []:
+        print(_json.dumps({k: v for k, v in e.items() if k not in ("pre",)})[:600])
